@@ -147,9 +147,9 @@ impl<'a, 'tcx> Cx<'a, 'tcx> {
                         esc(&format!("{:?}", args))
                     );
                 }
-                // named constants of struct type (e.g. a Duration bound): record their evaluated value
+                // named constants of struct type (e.g. a Duration bound) or of integer / bool type: record their evaluated value
                 if let mir::Const::Unevaluated(..) = c.const_ {
-                    if matches!(ty.kind(), ty::Adt(..)) {
+                    if matches!(ty.kind(), ty::Adt(..)) || ty.is_integral() || ty.is_bool() {
                         let te = ty::TypingEnv::post_analysis(self.tcx, self.owner);
                         if let Ok(val) = c.const_.eval(self.tcx, te, c.span) {
                             let mut evs = format!("{:?}", val);
